@@ -20,6 +20,7 @@ type osFile struct {
 	off     int    // read offset into text
 	stream  *value // readable DocStream (struct cell), or nil
 	wbuf    []value
+	woff    int // write offset into wbuf (a file opened without O_TRUNC starts with its old content)
 	written bool
 	ptr     *value // the fake *os.File
 }
@@ -151,7 +152,14 @@ func runCLI(fr *frame, args []value) value {
 }
 
 func (f *osFile) write(p []value) {
-	f.wbuf = append(f.wbuf, p...)
+	for _, b := range p {
+		if f.woff < len(f.wbuf) {
+			f.wbuf[f.woff] = b
+		} else {
+			f.wbuf = append(f.wbuf, b)
+		}
+		f.woff++
+	}
 	f.written = true
 }
 
@@ -239,6 +247,38 @@ func init() {
 		m := fr.osm()
 		name := keyString(args[0])
 		f := m.newFile(name)
+		m.created[name] = f
+		return tuple{f.ptr, iface{}}
+	})
+	reg("os.OpenFile", func(fr *frame, args []value) value {
+		// linux flag values; what matters: access mode, O_CREATE, O_EXCL, O_TRUNC, O_APPEND
+		m := fr.osm()
+		name := keyString(args[0])
+		flag := int(fr.concreteInt(args[1], "os.OpenFile flag"))
+		const oCreate, oExcl, oTrunc, oAppend = 0x40, 0x80, 0x200, 0x400
+		if flag&3 == 0 {
+			return call(fr.i, fr, 0, fr.i.prog.ImportedPackage("os").Func("Open"), []value{args[0]})
+		}
+		old, exists := m.texts[name]
+		if prev, ok := m.created[name]; ok {
+			old, exists = normStr(prev.wbuf), true
+		}
+		if _, isData := m.data[name]; isData {
+			unsup("os.OpenFile for writing on an input data file")
+		}
+		switch {
+		case !exists && flag&oCreate == 0:
+			return tuple{(*value)(nil), pathError(fr, "open", name, "no such file or directory")}
+		case exists && flag&oCreate != 0 && flag&oExcl != 0:
+			return tuple{(*value)(nil), pathError(fr, "open", name, "file exists")}
+		}
+		f := m.newFile(name)
+		if exists && flag&oTrunc == 0 {
+			f.wbuf = append([]value{}, strBytes(old)...)
+		}
+		if flag&oAppend != 0 {
+			f.woff = len(f.wbuf)
+		}
 		m.created[name] = f
 		return tuple{f.ptr, iface{}}
 	})
